@@ -71,8 +71,12 @@ Proof.
   destruct (o_kind o); cbn; auto; destruct (e_reof o); cbn; auto.
 Qed.
 
-Lemma sys_write_same o n : fst (sys_write o n) = o.
-Proof. apply sys_write_bits. Qed.
+Lemma sys_write_pc o n :
+  let o1 := fst (sys_write o n) in
+  pc o1 = pc o /\ o_evR o1 = o_evR o /\ o_evW o1 = o_evW o /\ o_rd o1 = o_rd o /\ o_wr o1 = o_wr o.
+Proof.
+  destruct (sys_write_fields o n) as (_ & _ & A & B & C & D & _). cbv zeta. unfold pc. rewrite A, B, C, D. auto.
+Qed.
 
 Definition bit (w : bool) (o : obj) : bool := if w then o_evW o else o_evR o.
 Definition reactor (w : bool) (o : obj) : option opst := if w then o_wr o else o_rd o.
@@ -114,7 +118,7 @@ Proof.
     assert (Hsys : let o1 := fst (if w then sys_write o (op_len p - op_sofar p) else sys_read o (op_len p - op_sofar p)) in
                    pc o1 = pc o /\ bit w o1 = false).
     { destruct w; cbn zeta.
-      - rewrite sys_write_same. auto.
+      - destruct (sys_write_pc o (op_len p - op_sofar p)) as (A & B & C & _). split; [exact A|]. unfold bit in *. congruence.
       - destruct (sys_read_pc o (op_len p - op_sofar p)) as (A & B & C & _). split; [exact A|]. unfold bit in *. congruence. }
     destruct (if w then sys_write o (op_len p - op_sofar p) else sys_read o (op_len p - op_sofar p)) as [o1 r].
     cbn [fst] in Hsys. destruct Hsys as [Hpc Hb1].
